@@ -145,7 +145,7 @@ def run_tasks(tasks, workers=None, task_timeout=None):
                 c.close()
                 del running[c]
                 fn = getattr(f, "contract_fn", f.__name__)
-                if f.__name__ == "verify":
+                if f.__name__ in ("verify", "verify_callsite"):
                     # an engine-V task ran out of budget: the solver's problem, not the code's - the proof of that function is not available on this run
                     cname = getattr(a[0], "name", "?") if a else "?"
                     obs.append({"_prooflost": cname, "reason": "engine V exceeded its task budget (%d s CPU) on %s" % (limit, cname)})
